@@ -275,7 +275,7 @@ class DewPoint:
                                       self.T_tol, 5e-12, args,
                                       maxiter=self.maxiter,
                                       checkiter=False)
-            except RuntimeError:
+            except (RuntimeError, ArithmeticError): # The unbounded secant may leave the temperature domain, where the activity model divides by zero
                 Tmin = self.Tmin
                 Tmax = self.Tmax
                 T = flx.IQ_interpolation(f, Tmin, Tmax,
